@@ -17,7 +17,7 @@ ALL = ['P_T', 'P_TA', 'P_N', 'F_T', 'F_TA', 'F_N', 'V_T', 'V_TA', 'V_N', 'M_T', 
 VARYING = ['V_T', 'V_TA', 'V_N', 'M_T', 'M_NA', 'VV_T']
 ALIGNED = ['P_TA', 'F_TA', 'V_TA', 'M_NA', 'VV_T']
 NONTRIV = ['P_N', 'F_N', 'V_N', 'M_NA']
-S5Q = ['P_T', 'P_TA', 'P_N', 'F_T', 'F_TA', 'F_N', 'V_T', 'V_TA', 'V_N', 'M_T', 'B_T', 'B_TA', 'VB_T', 'P_TB', 'B_B', 'BB_T']
+S5Q = ['P_T', 'P_TA', 'P_N', 'F_T', 'F_TA', 'F_N', 'V_T', 'V_TA', 'V_N', 'M_T', 'B_T', 'B_TA', 'VB_T', 'P_TB', 'B_B', 'BB_T', 'SB_T']
 
 K_SEQ = {'SIZE', 'EMPTY', 'CAP', 'SHAPE', 'VALUES', 'RETURNED_ITERATOR', 'STATE', 'OBS_MISSING', 'OBS_OF_ABSENT'}
 K_MEM = {'BOUNDS', 'DATA_RANGE', 'DATA_EXCEEDS_MEMORY_CONSUMPTION', 'MEMORY_CONSUMPTION_EXCEEDS_BLOCK',
@@ -92,10 +92,10 @@ def ul(tier):
         # quick: a stratified sample; thorough: EVERY list without a VaryingSize parameter (their fill model is tiny)
         # and one list per fine signature of those with one
         if tier == 'quick':
-            sel = [('pairs', False, True, 1, False, 2), ('pairs2', False, True, 3, False, 2),
-                   ('triples', False, True, 16, False, 3),
-                   ('pairs', False, False, 6, False, 1), ('pairs2', False, False, 20, False, 1),
-                   ('triples', False, False, 80, False, 1), ('pairs3', False, None, 3, False, 1)]
+            sel = [('pairs', False, True, 1, False, 1), ('pairs2', False, True, 3, False, 1),
+                   ('triples', False, True, 16, False, 2),
+                   ('pairs', False, False, 8, False, 1), ('pairs2', False, False, 24, False, 1),
+                   ('triples', False, False, 100, False, 1), ('pairs3', False, None, 4, False, 1)]
         else:
             sel = [('pairs', True, True, 1, True, 1), ('pairs2', True, True, 1, True, 1), ('triples', True, True, 1, True, 1),
                    ('pairs', True, False, 1, False, 1), ('pairs2', True, False, 1, False, 1),
@@ -270,8 +270,11 @@ GROUP_OPS = {
     'ELEM_ASSIGN_REF': 'assignment of a reference to a ContiguousElement (element = ref)',
     'REF_OPS': 'assignment / move assignment / swap / iter_swap between references, rotate, reverse, swap_ranges',
     'CMP': 'comparison operators between vectors, references and elements',
+    'API': 'iterator conversions and arrow, const references and their structured bindings, every ContiguousElement '
+           'constructor form, get<I> on lvalue / const / rvalue elements, conversions between elements and references, '
+           'data()/cbegin()/cend()/front()/back(), range-for over const and mutable vectors',
 }
-C20_CONFIGS = ALL + ['B_T', 'B_TA', 'VB_T', 'P_TB', 'B_B', 'BB_T']
+C20_CONFIGS = ALL + ['B_T', 'B_TA', 'VB_T', 'P_TB', 'B_B', 'BB_T', 'SB_T']
 
 
 def run_c20(tier, seed):
